@@ -459,6 +459,11 @@ def check_C15(run: Run):
     # rotations
     axes = [(1, 0, 0), (0, 0, 1), (1, 1, 0), (1, 2, 3), (-1, -1, 1), (0, 0, 0), (0.0, -0.0, 0.0), (1e-300, 0, 0), (0, 1e-300, 1e-300), (1e300, 1e300, 0), (1e300, 0, 0),
             (1e-162, 1e-162, 0), (5e-324, 0, 0), (float("nan"), 0, 1), (float("inf"), 0, 0), (0, float("-inf"), 1), (1e308, 1e308, 1e308), (1e-9, 1, 0), (1e150, 1e-150, 1)]
+    nan, inf = float("nan"), float("inf")
+    for bad in (nan, inf, -inf):            # a non-finite component in every position, next to ordinary, zero, tiny and huge ones
+        for pos in range(3):
+            for others in ((0.0, 1.0), (1.0, 0.0), (1.0, 2.0), (0.0, 0.0), (1e-200, 1.0), (1e200, 1.0), (-1.0, -1.0)):
+                v = list(others); v.insert(pos, bad); axes.append(tuple(v))
     axes += [tuple(rng.uniform(-1, 1) * 10.0 ** rng.randint(-20, 20) for _ in range(3)) for _ in range(run.n(60, 1500))]
     cases = []
     for ax in axes:
@@ -559,6 +564,9 @@ def gate_pool(g: G.Gen, rng):
     add("Toffoli", C(0, C(1, dg.X(2))), C(0, Mx(cn, [1, 2])), C(1, C(0, dg.X(2))))
     add("Toffoli-relphase", C(0, Mx(1j * cn, [1, 2])), C(0, Mx(np.exp(0.3j) * cn, [1, 2])))
     add("CI", C(0, dg.I(1)), C(0, dg.I(2)), C(0, Mx(np.eye(4), [1, 2])))
+    # identity operations on disjoint operand sets (same operation on the union, also up to a global phase)
+    add("I-disjoint", Mx(np.eye(4), [0, 1]), Mx(1j * np.eye(4), [2, 3]), C(2, dg.I(3)), C(1, dg.I(0)), Mx(np.eye(8), [4, 2, 0]))
+    add("CZ23", dg.CZ(2, 3))
     add("CCZ-relphase", C(0, Mx(np.exp(0.3j) * cz, [1, 2])))
     add("I01", C(1, dg.I(0)), Mx(np.eye(4), [0, 1]), C(0, dg.I(1)))
     add("globalphase", Mx(np.eye(4) * np.exp(0.7j), [0, 1]))
